@@ -1,7 +1,11 @@
 """C02 — pg.List / pg.Dict vs built-in list / dict under every mutation history."""
 import collections
 import copy
+import enum
+import json
+import math
 import operator
+import random
 import types
 
 import pyglove as pg
@@ -66,7 +70,180 @@ ASSUMPTIONS = [
 ]
 
 
-def leaf(rng):
+# ---------------------------------------------------------------------------
+# SPECIAL LEAVES. Python's list / dict store ANY object; what they do with it is
+# defined by identity first, `==` second. Two classes of leaves a user can hand
+# over beside the JSON primitives:
+#   * objects with an unusual `__eq__` (wildcard matchers such as
+#     unittest.mock.ANY, array-likes whose == is element-wise, NaN, objects whose
+#     comparison raises): the reference holds the SAME objects, and the harness
+#     compares such leaves by identity only (their == is meaningless);
+#   * instances of SUBCLASSES of the JSON primitives (IntEnum, IntFlag, a
+#     str-valued Enum, user subclasses of int / str / float): json.dumps accepts
+#     them, so the JSON read-out is compared with the reference's JSON text.
+
+class EqError(Exception):
+  """Raised by the comparison of a leaf whose == cannot be evaluated."""
+
+
+class Mask(list):
+  """The non-bool result of an element-wise comparison."""
+
+
+class Ambiguous:
+  """Result of a comparison whose truth value is ambiguous (as numpy's arrays)."""
+
+  def __bool__(self):
+    raise EqError('the truth value of an element-wise comparison is ambiguous')
+
+
+class XLeaf:
+  """A leaf with its own idea of equality; one object per name (copies and
+  pickles are the object itself, as for any sentinel)."""
+  family = None
+
+  def __init__(self, name):
+    self.name = name
+
+  def __repr__(self):
+    return self.name
+
+  __hash__ = object.__hash__
+
+  def __copy__(self):
+    return self
+
+  def __deepcopy__(self, memo):
+    return self
+
+  def __reduce__(self):
+    return (_xleaf, (self.name,))
+
+
+def _xleaf(name):
+  return XL[name]
+
+
+class AlwaysEq(XLeaf):               # unittest.mock.ANY, wildcard matchers
+  family = 'permissive-eq-leaf'
+  def __eq__(self, other): return True
+  def __ne__(self, other): return False
+  __hash__ = object.__hash__
+
+
+class TruthyEq(XLeaf):               # == gives a non-empty, non-bool answer
+  family = 'permissive-eq-leaf'
+  def __eq__(self, other): return Mask([True])
+  def __ne__(self, other): return Mask()
+  __hash__ = object.__hash__
+
+
+class NeverEq(XLeaf):                # not even equal to itself
+  family = 'irreflexive-eq-leaf'
+  def __eq__(self, other): return False
+  def __ne__(self, other): return True
+  __hash__ = object.__hash__
+
+
+class FalsyEq(XLeaf):                # == gives an empty, non-bool answer
+  family = 'irreflexive-eq-leaf'
+  def __eq__(self, other): return Mask()
+  def __ne__(self, other): return Mask([True])
+  __hash__ = object.__hash__
+
+
+class RaisingEq(XLeaf):              # comparison with anything raises
+  family = 'raising-eq-leaf'
+  def __eq__(self, other): raise EqError(f'{self.name} == ...')
+  def __ne__(self, other): raise EqError(f'{self.name} != ...')
+  __hash__ = object.__hash__
+
+
+class AmbiguousEq(XLeaf):            # the answer of == has no truth value
+  family = 'raising-eq-leaf'
+  def __eq__(self, other): return Ambiguous()
+  def __ne__(self, other): return Ambiguous()
+  __hash__ = object.__hash__
+
+
+class SelfEq(XLeaf):                 # sane: equal to itself only
+  family = 'identity-eq-leaf'
+  def __eq__(self, other): return self is other
+  def __ne__(self, other): return self is not other
+  __hash__ = object.__hash__
+
+
+class Color(enum.IntEnum):
+  RED = 1
+  GREEN = 2
+  BLUE = 7
+
+
+class Perm(enum.IntFlag):
+  R = 4
+  W = 2
+  X = 1
+
+
+class Tag(str, enum.Enum):
+  A = 'a'
+  ID = 'id-1'
+
+
+class Int(int):
+  def __repr__(self): return f'Int({int(self)})'
+
+
+class Str(str):
+  def __repr__(self): return f'Str({str.__str__(self)!r})'
+
+
+class Flt(float):
+  def __repr__(self): return f'Flt({float(self)!r})'
+
+
+NAN = float('nan')
+XL = {x.name: x for x in (
+    AlwaysEq('ANY1'), AlwaysEq('ANY2'), TruthyEq('MASKED1'), TruthyEq('MASKED2'),
+    NeverEq('NEVER1'), NeverEq('NEVER2'), FalsyEq('UNMASKED1'),
+    RaisingEq('RAISES1'), RaisingEq('RAISES2'), AmbiguousEq('AMBIG1'),
+    SelfEq('SELF1'), SelfEq('SELF2'))}
+HOSTILE_PALETTES = {
+    'permissive-eq-leaf': [XL['ANY1'], XL['ANY2'], XL['MASKED1'], XL['MASKED2']],
+    'irreflexive-eq-leaf': [XL['NEVER1'], XL['NEVER2'], XL['UNMASKED1'], NAN, NAN],
+    'raising-eq-leaf': [XL['RAISES1'], XL['RAISES2'], XL['AMBIG1']],
+    'identity-eq-leaf': [XL['SELF1'], XL['SELF2']],
+}
+SUBCLASS_LEAVES = [Color.RED, Color.GREEN, Color.BLUE, Perm.R | Perm.W, Perm.X, Tag.A, Tag.ID,
+                   Int(1), Int(7), Int(2 ** 60 + 1), Str('a'), Str('id-1'), Str(''),
+                   Flt(2.5), Flt(1.0)]
+PRIMS = (type(None), bool, int, float, str)
+
+# What the current case draws from (set by run_case): special leaves, the
+# probability of one per leaf, and whether unusual dict keys are drawn.
+CASE = {'palette': [], 'p': 0.0, 'xkeys': False}
+
+
+def leaf_family(v):
+  """The class of special leaf `v` is (None for the JSON primitives)."""
+  if isinstance(v, XLeaf):
+    return v.family
+  if isinstance(v, float) and v != v:
+    return 'irreflexive-eq-leaf'
+  t = type(v)
+  if t in PRIMS:
+    return None
+  for base in (int, float, str):        # bool is a JSON primitive itself
+    if isinstance(v, base):
+      return base.__name__ + '-subclass-leaf'
+  return None
+
+
+def is_hostile(v):
+  return isinstance(v, XLeaf) or (isinstance(v, float) and v != v)
+
+
+def plain_leaf(rng):
   r = rng.random()
   if r < 0.55:
     return rng.randint(0, 9)
@@ -79,8 +256,54 @@ def leaf(rng):
   return rng.choice([0.5, -1.5, 2.0])
 
 
+def leaf(rng):
+  if CASE['palette'] and rng.random() < CASE['p']:
+    return rng.choice(CASE['palette'])
+  return plain_leaf(rng)
+
+
+def draw_case_alphabet(rng):
+  """Half of the cases use JSON primitives only; the others add special leaves
+  of ONE hostile-equality family and / or subclass-of-primitive leaves."""
+  CASE.update(palette=[], p=0.0, xkeys=rng.random() < 0.3)
+  r = rng.random()
+  if r < 0.5:
+    return
+  pal = []
+  if r < 0.8:
+    fam = rng.choice(['permissive-eq-leaf', 'permissive-eq-leaf', 'irreflexive-eq-leaf',
+                      'irreflexive-eq-leaf', 'raising-eq-leaf', 'identity-eq-leaf'])
+    pal += rng.sample(HOSTILE_PALETTES[fam], rng.randint(1, 2))
+  if r >= 0.7:
+    pal += rng.sample(SUBCLASS_LEAVES, rng.randint(1, 4))
+  CASE.update(palette=pal, p=rng.choice([0.1, 0.2, 0.35]))
+
+
+# UNUSUAL KEYS (30% of the cases): a symbolic dict admits str and int keys, hence
+# also instances of int subclasses (bool, IntEnum members, user classes), and
+# ANY str: the empty one and strings that look like broken key paths.
+PATH_SYNTAX_KEYS = ['', 'a[', ']', '[', 'a]b', 'x[0', '[0', '$']
+INT_SUBCLASS_KEYS = [True, False, True, False, Color.RED, Color.GREEN, Int(3), Int(12)]
+
+
+def key_family(k):
+  if type(k) is bool:
+    return 'bool-key'
+  if isinstance(k, int) and type(k) is not int:
+    return 'int-subclass-key'
+  if type(k) is str and k in PATH_SYNTAX_KEYS:
+    return 'path-syntax-key'
+  return None
+
+
+def xkey(rng):
+  return rng.choice(PATH_SYNTAX_KEYS if rng.random() < 0.5 else INT_SUBCLASS_KEYS)
+
+
 def keygen(rng):
   r = rng.random()
+  if CASE['xkeys'] and r < 0.2:
+    return xkey(rng)
   if r < 0.6:
     return rng.choice(V.SAFE_KEYS)
   if r < 0.85:
@@ -90,8 +313,13 @@ def keygen(rng):
 
 
 def vary_key(rng, k):
-  """Widens the int keys the shared generators draw (0..4) to negative ints
-  and to digit-only strings."""
+  """Widens the keys the shared generators draw (a few identifiers, 0..4) to
+  negative ints, digit-only strings and (in cases with unusual keys) to int
+  subclass instances and path-syntax strings."""
+  if CASE['xkeys'] and rng.random() < 0.12:
+    if isinstance(k, int) and not isinstance(k, bool):
+      return rng.choice([Int(k), bool(k)] + ([Color(k)] if k in (1, 2, 7) else []))
+    return rng.choice(PATH_SYNTAX_KEYS)
   if isinstance(k, int) and not isinstance(k, bool):
     r = rng.random()
     if r < 0.3:
@@ -284,6 +512,112 @@ def strip_forms(x):
   return x
 
 
+def same_key(x, y):
+  """Keys agree: equal and of one type; WHICH of several equal int-like objects
+  (1, True, an IntEnum member) a dict keeps as the key is a don't-care."""
+  if type(x) is type(y):
+    return x == y
+  return isinstance(x, int) and isinstance(y, int) and x == y
+
+
+def same2(a, b):
+  """R.same, with hostile-equality leaves compared by identity."""
+  if isinstance(a, XLeaf) or isinstance(b, XLeaf):
+    return a is b
+  if isinstance(a, dict) and isinstance(b, dict):
+    ka, kb = list(a.keys()), list(b.keys())
+    return (len(ka) == len(kb) and all(same_key(x, y) for x, y in zip(ka, kb))
+            and all(same2(a[x], b[y]) for x, y in zip(ka, kb)))
+  if isinstance(a, (list, tuple)) and isinstance(b, (list, tuple)):
+    return (isinstance(a, tuple) == isinstance(b, tuple) and len(a) == len(b)
+            and all(same2(x, y) for x, y in zip(a, b)))
+  if isinstance(a, float) and isinstance(b, float) and a != a and b != b:
+    return type(a) is type(b)
+  if type(a) is not type(b):
+    return False
+  return a == b
+
+
+def walk_leaves(m):
+  if isinstance(m, dict):
+    for v in m.values():
+      yield from walk_leaves(v)
+  elif isinstance(m, (list, tuple)):
+    for v in m:
+      yield from walk_leaves(v)
+  else:
+    yield m
+
+
+def has_hostile(m):
+  return any(is_hostile(v) for v in walk_leaves(m))
+
+
+def json_leaf_same(got, ref):
+  """A leaf of the JSON value form agrees with the reference leaf: it is written
+  as the same JSON text (1 and 1.0, "a" and an opaque object differ)."""
+  if got is ref:
+    return True
+  if type(got) is type(ref) and type(ref) in PRIMS:
+    return got == ref or (got != got and ref != ref)
+  if not isinstance(got, PRIMS) or not isinstance(ref, PRIMS):
+    return False
+  try:
+    return json.dumps(got) == json.dumps(ref)
+  except Exception:  # pylint: disable=broad-except
+    return False
+
+
+def json_same(got, ref, text=False):
+  """The JSON read-out `got` agrees with the reference container `ref`.
+
+  text=False: `got` is the JSON VALUE (pg.to_json): same structure, keys as
+  same_key, leaves written as the same JSON text. text=True: `got` is the
+  parsed JSON STRING: JSON has str keys only and the spelling of an int key is
+  the library's own business, so dict members are compared in order."""
+  if isinstance(ref, dict):
+    if not isinstance(got, dict) or len(got) != len(ref):
+      return False
+    if text:
+      return all(json_same(g, r, text) for g, r in zip(got.values(), ref.values()))
+    kg, kr = list(got.keys()), list(ref.keys())
+    return (all(same_key(x, y) for x, y in zip(kg, kr))
+            and all(json_same(got[x], ref[y], text) for x, y in zip(kg, kr)))
+  if isinstance(ref, list):
+    return (isinstance(got, list) and len(got) == len(ref)
+            and all(json_same(g, r, text) for g, r in zip(got, ref)))
+  if isinstance(got, (dict, list)):
+    return False
+  return json_leaf_same(got, ref)
+
+
+def leaves_only(m):
+  """`m` with every dict replaced by {position: member} (json.dumps cannot write
+  mixed str / int keys sorted or not; members are compared in order)."""
+  if isinstance(m, dict):
+    return {str(i): leaves_only(v) for i, v in enumerate(m.values())}
+  if isinstance(m, list):
+    return [leaves_only(v) for v in m]
+  return m
+
+
+def json_normal(m):
+  """What the reference reads back from its own JSON text: subclass instances
+  of the primitives come back as the primitives."""
+  if isinstance(m, dict):
+    return {k: json_normal(v) for k, v in m.items()}
+  if isinstance(m, list):
+    return [json_normal(v) for v in m]
+  if type(m) in PRIMS:
+    return m
+  for base in (int, float):
+    if isinstance(m, base):
+      return base(m)
+  if isinstance(m, str):
+    return str.__str__(m)
+  return m
+
+
 def build2(desc, forest=None):
   """D.build plus the subclass forms of plain containers."""
   k = desc[0]
@@ -436,10 +770,36 @@ def add_arg_forms(rng, name, args):
       args['map'] = rng.choice(DICT_ARG_FORMS)       # dict | non-dict is a TypeError
 
 
+def path_key2(rel, style):
+  """O.path_key for keys of any admitted type: only a plain int or an
+  identifier can be spelled inside a path STRING; an int-like key (bool, IntEnum
+  member) is passed as the key itself or inside a KeyPath."""
+  spellable = lambda k: type(k) is int or (type(k) is str and k.isidentifier())
+  if len(rel) == 1 and style != 'keypath':
+    k = rel[0]
+    if isinstance(k, int) or spellable(k):
+      return k
+  kp = pg.KeyPath(list(rel))
+  if style == 'str' and all(spellable(k) for k in rel):
+    return str(kp)
+  return kp
+
+
+def _rebind_run(n, a, B):
+  fn = getattr(n, a['api'])
+  if a['form'] == 'kwargs':
+    return fn(**{r[0]: B(v) for r, v in a['updates']}, raise_on_no_change=False, **a['opts'])
+  return fn({path_key2(r, a['style']): B(v) for r, v in a['updates']},
+            raise_on_no_change=False, **a['opts'])
+
+
+SYM_OPS = {'rebind': _rebind_run}     # symbolic side only
+
+
 def execute2(forest, step):
   """O.execute with the operand forms of this module."""
   B = lambda d: build2(d, forest)
-  run = FORM_OPS.get(step['op']) or O.OPS[step['op']].run
+  run = SYM_OPS.get(step['op']) or FORM_OPS.get(step['op']) or O.OPS[step['op']].run
   try:
     node = D.resolve(forest, step['at'][0], step['at'][1])
     with O.scopes(step.get('scopes', ())):
@@ -801,7 +1161,7 @@ def read_checks(ctx, rng, root, m, json_paths=True):
       got = ('ok', R.to_plain(real_fn()))
     except Exception as e:  # pylint: disable=broad-except
       got = ('raise', R.error_class(e))
-    ok = exp[0] == got[0] and (R.same(exp[1], got[1]) if exp[0] == 'ok'
+    ok = exp[0] == got[0] and (same2(exp[1], got[1]) if exp[0] == 'ok'
                                else exp[1] == got[1])
     if not ok:
       bad.append((name, f'{detail} expected {exp!r:.200} got {got!r:.200}'))
@@ -810,25 +1170,55 @@ def read_checks(ctx, rng, root, m, json_paths=True):
   if bad:
     return bad
   chk('len', lambda: len(root), lambda: len(m))
-  chk('eq-plain', lambda: ((root == m), (m == root), (root != m)),
-      lambda: (True, True, False))
-  chk('to_json', lambda: pg.to_json(root), lambda: m)
-  if json_paths:
+  # The == of a hostile-equality leaf is meaningless and json does not accept
+  # it: equality with the plain container and the JSON read-outs are compared
+  # for containers of JSON leaves (primitives and instances of their subclasses).
+  hostile = has_hostile(m)
+  if hostile:
+    c['read_rounds_hostile_leaf'] += 1
+    return_json = False
+  else:
+    chk('eq-plain', lambda: ((root == m), (m == root), (root != m)),
+        lambda: (True, True, False))
+    # JSON value form: same structure and keys, every leaf written as the JSON
+    # text the reference's leaf is written as by json.dumps.
+    c['read_checks'] += 1
+    try:
+      jv = pg.to_json(root)
+      if not json_same(jv, m):
+        bad.append(('to_json', f'expected {m!r:.200} got {jv!r:.200}'))
+    except Exception as e:  # pylint: disable=broad-except
+      bad.append(('to_json', f'raised {type(e).__name__}: {e!s:.200}'))
+    return_json = json_paths
+  if return_json:
     # JSON conversion agrees with the reference: what is written can be read
     # back as the same container (contents, order, key types), both through
     # JSON values and through the JSON string.
     def back(v):
       if not isinstance(v, type(root)):
         raise AssertionError(f'read back as {type(v).__name__}')
-      return v, (v == m), (v == root)
+      # (whether an IntEnum member is read back as itself or as an int is open)
+      return json_normal(R.to_plain(v)), (v == m), (v == root)
     form = rng.choice(['pg', 'method'])
+    mj = json_normal(m)
     chk('json-roundtrip',
         lambda: back(pg.from_json(pg.to_json(root) if form == 'pg' else root.to_json())),
-        lambda: (m, True, True))
+        lambda: (mj, True, True))
     chk('json-str-roundtrip',
         lambda: back(pg.from_json_str(pg.to_json_str(root) if form == 'pg'
                                       else root.to_json_str())),
-        lambda: (m, True, True))
+        lambda: (mj, True, True))
+    # The JSON text itself: leaf by leaf the text json.dumps writes for the
+    # reference (an int stays an int, a str a str: 1 is not 1.0).
+    c['read_checks'] += 1
+    c['json_text_checks'] += 1
+    try:
+      txt = pg.to_json_str(root) if form == 'pg' else root.to_json_str()
+      if not json_same(json.loads(txt), json.loads(json.dumps(leaves_only(m))), text=True):
+        bad.append(('json-text', f'expected the leaves of {json.dumps(leaves_only(m))!s:.200} '
+                    f'got {txt!s:.200}'))
+    except Exception as e:  # pylint: disable=broad-except
+      bad.append(('json-text', f'raised {type(e).__name__}: {e!s:.200}'))
   if isinstance(m, list):
     chk('iter', lambda: [x for x in root], lambda: m)
     chk('list()', lambda: list(root), lambda: m)
@@ -920,13 +1310,230 @@ def member_checks(ctx, rng, root, m, path_reads=3):
         got = root
         for k in path:
           got = got[k]
-      ok = R.same(R.to_plain(got), exp)
+      ok = same2(R.to_plain(got), exp)
       detail = f'{how} of {path}: expected {exp!r:.150} got {R.to_plain(got)!r:.150}'
     except Exception as e:  # pylint: disable=broad-except
       ok, detail = False, f'{how} of {path} raised {type(e).__name__}: {e!s:.150}'
     if not ok:
       bad.append(('read-path-query', detail, how))
   return bad
+
+
+# ---------------------------------------------------------------------------
+# ATTRIBUTION to a class of special leaf / unusual key. Harness facts only: the
+# classes present in the contents before the step and in its arguments, and
+# the COUNTERFACTUAL: the same step on the same contents with the members of
+# that class replaced by ordinary stand-ins (a str for a hostile leaf, the
+# primitive value for a subclass instance, an int / identifier for a key)
+# agrees with the reference.
+
+KEY_STANDIN = {k: 'ps%d_' % i for i, k in enumerate(PATH_SYNTAX_KEYS)}
+
+
+def neutral_leaf(v, fams):
+  f = leaf_family(v)
+  if f is None or f not in fams:
+    return v
+  if is_hostile(v):
+    return '<%s>' % (v.name if isinstance(v, XLeaf) else 'nan')
+  return json_normal(v)
+
+
+def neutral_key(k, fams):
+  f = key_family(k)
+  if f is None or f not in fams:
+    return k
+  return KEY_STANDIN[k] if f == 'path-syntax-key' else int(k)
+
+
+def map_model(m, kf, lf):
+  if isinstance(m, dict):
+    return {kf(k): map_model(v, kf, lf) for k, v in m.items()}
+  if isinstance(m, list):
+    return [map_model(v, kf, lf) for v in m]
+  return lf(m)
+
+
+def map_desc(d, kf, lf):
+  k = d[0]
+  if k == 'v':
+    return ['v', lf(d[1])]
+  if k in ('D', 'd'):
+    return [k, [[kf(kk), map_desc(v, kf, lf)] for kk, v in d[1]]] + list(d[2:])
+  if k in ('L', 'l'):
+    return [k, [map_desc(v, kf, lf) for v in d[1]]] + list(d[2:])
+  if k == 'ins':
+    return ['ins', map_desc(d[1], kf, lf)]
+  if k == 'node':
+    return ['node', d[1], [kf(x) for x in d[2]]]
+  return d
+
+
+def map_step(step, kf, lf):
+  """The step with every key mapped by kf and every leaf operand by lf."""
+  s2 = dict(step)
+  s2['at'] = [step['at'][0], [kf(k) for k in step['at'][1]]]
+  a = dict(step['args'])
+  for name in ('v', 'default'):
+    if name in a:
+      a[name] = map_desc(a[name], kf, lf)
+  if 'vs' in a:
+    a['vs'] = [map_desc(v, kf, lf) for v in a['vs']]
+  if 'k' in a:
+    a['k'] = kf(a['k'])
+  if 'items' in a:
+    a['items'] = [[kf(k), map_desc(v, kf, lf)] for k, v in a['items']]
+  if 'updates' in a:
+    a['updates'] = [[[kf(k) for k in rel], map_desc(v, kf, lf)] for rel, v in a['updates']]
+  s2['args'] = a
+  return s2
+
+
+def features(before, step=None):
+  """Classes of special leaves / unusual keys in the contents and the step."""
+  out = set()
+  def kf(k):
+    out.add(key_family(k))
+    return k
+  def lf(v):
+    out.add(leaf_family(v))
+    return v
+  map_model(before, kf, lf)
+  if step is not None:
+    map_step(step, kf, lf)
+  out.discard(None)
+  return sorted(out)
+
+
+def neutralized(fams, before, step=None):
+  kf = lambda k: neutral_key(k, fams)
+  lf = lambda v: neutral_leaf(v, fams)
+  return map_model(before, kf, lf), (map_step(step, kf, lf) if step is not None else None)
+
+
+def smallest_class(fs, holds):
+  """The smallest set of classes whose replacement makes `holds` true."""
+  if not fs or not holds(fs):
+    return None
+  for f in fs:
+    if holds([f]):
+      return f
+  for i, f in enumerate(fs):
+    for g in fs[i + 1:]:
+      if holds([f, g]):
+        return f + '+' + g
+  return '+'.join(fs)
+
+
+def needs_special(step, before):
+  """The class of special leaf / unusual key a disagreeing step is attributed to."""
+  def holds(fams):
+    b2, s2 = neutralized(fams, before, step)
+    return agrees(s2, b2)
+  return smallest_class(features(before, step), holds)
+
+
+def needs_special_read(ctx, m, clause):
+  """Same for a read path that disagrees with (rightly stored) contents."""
+  def holds(fams):
+    m2, _ = neutralized(fams, m)
+    try:
+      bad = read_checks(ctx, random.Random(0), sym_of(m2), m2)
+    except Exception:  # pylint: disable=broad-except
+      return False
+    return not any(cl == clause for cl, _ in bad)
+  return smallest_class(features(m), holds)
+
+
+def needs_special_ctor(d0, ctor):
+  def holds(fams):
+    kf = lambda k: neutral_key(k, fams)
+    lf = lambda v: neutral_leaf(v, fams)
+    d2 = map_desc(d0, kf, lf)
+    try:
+      root, m = build_root(d2, ctor), R.build_plain(d2, None)
+      return same2(R.to_plain(root), m) and all_members_symbolic(root)
+    except Exception:  # pylint: disable=broad-except
+      return False
+  fs = set()
+  map_desc(d0, lambda k: fs.add(key_family(k)) or k, lambda v: fs.add(leaf_family(v)) or v)
+  fs.discard(None)
+  return smallest_class(sorted(fs), holds)
+
+
+def without_hostile(m):
+  """The contents without their hostile-equality leaves."""
+  if isinstance(m, dict):
+    return {k: without_hostile(v) for k, v in m.items() if not is_hostile(v)}
+  if isinstance(m, list):
+    return [without_hostile(v) for v in m if not is_hostile(v)]
+  return m
+
+
+def needs_special_path_read(ctx, m):
+  def holds(fams):
+    m2, _ = neutralized(fams, m)
+    try:
+      return not member_checks(ctx, random.Random(0), sym_of(m2), m2, path_reads=50)
+    except Exception:  # pylint: disable=broad-except
+      return False
+  return smallest_class(features(m), holds)
+
+
+def member_snapshot(forest, model, step):
+  """The container members of the step's target, both sides, before the step."""
+  try:
+    node = D.resolve(forest, *step['at'])
+    mnode = model[step['at'][0]]
+    for k in step['at'][1]:
+      mnode = mnode[k]
+    if isinstance(mnode, dict):
+      pairs = [(k, v, node.sym_getattr(k)) for k, v in mnode.items()
+               if isinstance(v, (dict, list))]
+    else:
+      pairs = [(k, v, node.sym_getattr(k)) for k, v in enumerate(mnode)
+               if isinstance(v, (dict, list))]
+    return pairs
+  except Exception:  # pylint: disable=broad-except
+    return None
+
+
+def result_identity(forest, step, members0, mnode, mres, res):
+  """'' when `res` is the symbolic member that corresponds to the reference's
+  member `mres` is (by identity), a text when it is another object, None when
+  the reference's result is not a member (before or after the step)."""
+  for k, mv, sv in members0:
+    if mv is mres:
+      return '' if sv is res else (f'the reference returns the member it held at {k!r}; '
+                                   f'the symbolic container returns another {type(res).__name__}')
+  items = mnode.items() if isinstance(mnode, dict) else enumerate(mnode)
+  for k, mv in items:
+    if mv is mres:
+      try:
+        sv = D.resolve(forest, *step['at']).sym_getattr(k)
+      except Exception:  # pylint: disable=broad-except
+        return None
+      return '' if sv is res else (f'the reference returns the member it now holds at {k!r}; '
+                                   'the symbolic container returns an object it does not hold '
+                                   f'({type(res).__name__})')
+  return None
+
+
+def heal(ctx, rng, forest, model):
+  """Re-synchronises the symbolic side from the reference; when the contents
+  cannot be rebuilt with their hostile-equality leaves, both sides go on
+  without those. False: the case is abandoned."""
+  for attempt in (model[0], without_hostile(model[0])):
+    try:
+      s = sym_of(attempt)
+      if not read_checks(ctx, rng, s, attempt) and not member_checks(ctx, rng, s, attempt, 0):
+        forest[0], model[0] = s, copy.deepcopy(attempt)
+        ctx.counters['heals'] += 1
+        return True
+    except Exception:  # pylint: disable=broad-except
+      pass
+  ctx.counters['abandoned'] += 1
+  return False
 
 
 def cases(ctx):
@@ -949,7 +1556,7 @@ def agrees(s2, before):
       return False
     if st == 'raise' and R.error_class(res) != R.error_class(mres):
       return False
-    return R.same(R.to_plain(fresh[0]), m2[0]) and all_members_symbolic(fresh[0])
+    return same2(R.to_plain(fresh[0]), m2[0]) and all_members_symbolic(fresh[0])
   except Exception:  # pylint: disable=broad-except
     return False
 
@@ -1031,31 +1638,52 @@ def nested_pair(rng, root, m):
 def run_case(ctx, i):
   rng = ctx.rng
   c = ctx.counters
+  draw_case_alphabet(rng)
+  c['cases_special_leaves'] += bool(CASE['palette'])
+  c['cases_hostile_eq_leaves'] += any(is_hostile(v) for v in CASE['palette'])
+  c['cases_subclass_leaves'] += any(not is_hostile(v) for v in CASE['palette'])
+  c['cases_unusual_keys'] += CASE['xkeys']
   d0 = with_forms(rng, initial(rng))
   ctor = gen_ctor(rng, d0)
   table = d0[1] and all(x[0] in 'LlDd' for x in (
       d0[1] if d0[0] == 'L' else [v for _, v in d0[1]]))
   p_multi = 0.35 if rng.random() < 0.5 or table else 0.08
-  ctx.label = 'construction'
-  forest = [build_root(d0, ctor)]
-  ctx.label = None
   model = [R.build_plain(d0, None)]
   shown0 = f'{show2(d0)} given as {ctor}'
+  try:
+    forest = [build_root(d0, ctor)]
+  except Exception as e:  # pylint: disable=broad-except
+    # list(...) / dict(...) of the same members does not raise.
+    f = needs_special_ctor(d0, ctor)
+    ctx.violation('outcome', 'construction' + ('/' + f if f else ''),
+                  f'the constructor raised {type(e).__name__}: {e!s:.200}', {'initial': shown0})
+    return
   c['ctor:' + ctor] += 1
   c['operand_subclass_containers'] += len(forms_in(d0)) and 1
   trace, changed = [], 0
   fresh = model_containers(model[0])       # member containers written last
   for clause, detail in read_checks(ctx, rng, forest[0], model[0]):
-    ctx.violation('read-' + clause, 'construction' if clause == 'contents' else 'read-path',
-                  detail, {'initial': shown0})
-    return
+    if clause == 'contents':
+      f = needs_special_ctor(d0, ctor)
+      mech = 'construction' + ('/' + f if f else '')
+    else:
+      f = needs_special_read(ctx, model[0], clause)
+      mech = 'read-path' + ('/' + f if f else '')
+    ctx.violation('read-' + clause, mech, detail, {'initial': shown0})
+    if not heal(ctx, rng, forest, model):
+      return
+    break
   for clause, detail, what in member_checks(ctx, rng, forest[0], model[0]):
     m_ = 'read-path' if clause == 'read-path-query' else 'construction'
     if clause == 'member-not-symbolic' and forms_in(d0) and all_members_symbolic(
         build_root(strip_forms(d0), ctor)):
       m_ = what + '-subclass-operand'
+    elif clause == 'read-path-query':
+      f = needs_special_path_read(ctx, model[0])
+      m_ += '/' + f if f else ''
     ctx.violation(clause, m_, detail, {'initial': shown0})
-    forest[0] = sym_of(model[0])
+    if not heal(ctx, rng, forest, model):
+      return
     break
   n_steps = rng.randint(ctx.params['steps'] // 2, ctx.params['steps'])
   for _ in range(n_steps):
@@ -1067,6 +1695,7 @@ def run_case(ctx, i):
                                          for r, v in step['args']['updates']] for f in fresh):
       c['through_rebinds_into_just_written_member'] += 1
     before = copy.deepcopy(model[0])
+    members0 = member_snapshot(forest, model, step)
     mstatus, mres, mnode = model_execute(model, step)
     ctx.label = step['op']
     status, res = execute2(forest, step)
@@ -1103,21 +1732,30 @@ def run_case(ctx, i):
           problem = ('result', f'in-place operation returned {type(res).__name__} '
                      'which is not the target')
       elif O.OPS[step['op']].effect == 'new':
-        if not R.same(R.to_plain(res), mres):
+        if not same2(R.to_plain(res), mres):
           problem = ('result', f'model {mres!r:.200} symbolic {R.to_plain(res)!r:.200}')
         elif step['op'] != 'Dict.__or__' and not isinstance(res, (pg.List, pg.Dict)):
           problem = ('result', f'copy is a {type(res).__name__}')
         elif isinstance(res, (pg.List, pg.Dict)) and not all_members_symbolic(res):
           problem = ('member-not-symbolic', 'the new container holds a plain '
                      f'{first_plain_member(res)} member', first_plain_member(res))
-      elif not R.same(R.to_plain(res), mres):
+      elif not same2(R.to_plain(res), mres):
         problem = ('result', f'model returned {mres!r:.200}, symbolic {R.to_plain(res)!r:.200}')
+      elif isinstance(mres, (dict, list)) and members0 is not None:
+        # Python returns the STORED object itself (setdefault, pop, popitem):
+        # the result is the member the container held / holds at that key.
+        why = result_identity(forest, step, members0, mnode, mres, res)
+        c['result_identity_checks'] += why is not None
+        if why:
+          problem = ('result-identity', why)
     bad = read_checks(ctx, rng, forest[0], model[0], json_paths=rng.random() < 0.5)
+    bad_model = model[0]
     if not bad:
       # The same read paths on a nested container (it is a list/dict too).
       pair = nested_pair(rng, forest[0], model[0])
       if pair is not None:
         c['nested_read_rounds'] += 1
+        bad_model = pair[1]
         bad = [(cl, 'nested container: ' + dt) for cl, dt in
                read_checks(ctx, rng, pair[0], pair[1], json_paths=rng.random() < 0.25)]
     mbad = []
@@ -1126,8 +1764,11 @@ def run_case(ctx, i):
     mech = step['op']
     member_mech = {}
     if problem or mbad or any(cl == 'contents' for cl, _ in bad):
-      oc = needs_forms(step, before)
-      if oc:
+      sp = needs_special(step, before)
+      oc = None if sp else needs_forms(step, before)
+      if sp:
+        mech += '/' + sp
+      elif oc:
         mech += '/' + oc
         # A member that stays plain because of the class of the operand: the
         # operation is immaterial (the same step with built-in operands agrees).
@@ -1148,24 +1789,28 @@ def run_case(ctx, i):
         seen_clause.add(clause)
         # The stored state differs: attribute to the operation. The state is
         # right but a read path disagrees with it: attribute to the read path.
-        ctx.violation('read-' + clause, mech if clause == 'contents' else 'read-path',
+        rmech = mech
+        if clause != 'contents':
+          f = needs_special_read(ctx, bad_model, clause)
+          rmech = 'read-path' + ('/' + f if f else '')
+        ctx.violation('read-' + clause, rmech,
                       f'step {len(trace)}: {trace[-1]}\n{detail}', witness())
     seen_clause = set()
     for clause, detail, what in mbad:
       if clause not in seen_clause:
         seen_clause.add(clause)
-        ctx.violation(clause, 'read-path' if clause == 'read-path-query'
-                      else member_mech.get(what, mech),
+        rmech = member_mech.get(what, mech)
+        if clause == 'read-path-query':
+          f = needs_special_path_read(ctx, model[0])
+          rmech = 'read-path' + ('/' + f if f else '')
+        ctx.violation(clause, rmech,
                       f'step {len(trace)}: {trace[-1]}\n{detail}', witness())
     if problem or bad or mbad:
       # heal: re-synchronise the symbolic side from the model
-      forest[0] = sym_of(model[0])
-      c['heals'] += 1
-      if read_checks(ctx, rng, forest[0], model[0]):
-        c['abandoned'] += 1
+      if not heal(ctx, rng, forest, model):
         break
     fresh = []
-    if not R.same(before, model[0]):
+    if not same2(before, model[0]):
       changed += 1
       if not step.get('through'):
         fresh = written_containers(before, model[0])[:8]
